@@ -471,6 +471,12 @@ func (h *H) MergeChild(r *Report) {
 	if r.Internal != "" && h.Rep.Internal == "" {
 		h.Rep.Internal = r.Internal
 	}
+	for k, v := range r.Extra {
+		if f, ok := v.(float64); ok {
+			c, _ := h.Rep.Extra[k].(int64)
+			h.Rep.Extra[k] = c + int64(f)
+		}
+	}
 	h.mu.Unlock()
 	for _, v := range r.Violations {
 		h.ViolateMin(v.Key, v.What, v.Case, 1<<30)
